@@ -30,6 +30,16 @@ def Stack.schedule (s : Stack) (e : Entry) : Stack := e :: s
 /-- remove the top; `none` on an empty stack -/
 def Stack.pop (s : Stack) : Option Stack := s.top.map fun _ => s.beneath
 
+/-- `close_screen(closed_from)`: remove the top on behalf of `frm` — the source of the close request
+(`some (.scr s)`: screen `s` asked, through a close signal; `none`: `close_screen()` without an
+argument). `none` (refused, nothing happens to the stack) on an empty stack and when `frm` names
+anything but the screen that is on top: the request is checked against the top *before* anything is
+popped. -/
+def Stack.close (s : Stack) (frm : Option Src) : Option Stack :=
+  match s.top with
+  | none => none
+  | some e => if frm ≠ none ∧ frm ≠ some (.scr e.screen) then none else some s.beneath
+
 /-- substitute the top by a screen, which inherits the modality of the entry it replaces;
 `none` on an empty stack -/
 def Stack.replace (s : Stack) (eid scr : Nat) (args : Option Nat) : Option Stack :=
@@ -42,7 +52,7 @@ inductive Op where
   | push (scr : Nat) (args : Option Nat)
   | pushModal (scr : Nat) (args : Option Nat)
   | replace (scr : Nat) (args : Option Nat)
-  | close
+  | close (frm : Option Src)
   | discard
   deriving Repr, DecidableEq
 
@@ -52,30 +62,31 @@ def Op.name : Op → String
   | .push .. => "push"
   | .pushModal .. => "pushModal"
   | .replace .. => "replace"
-  | .close => "close"
+  | .close _ => "close"
   | .discard => "discard"
 
 /-- The ideal stack after an operation; `eid` is the identity given to the new entry, if one is
-created. `none`: the operation is refused (close / replace / discard on an empty stack). -/
+created. `none`: the operation is refused (close / replace / discard on an empty stack; a close
+requested on behalf of a screen that is not the top). -/
 def Op.apply (eid : Nat) : Op → Stack → Option Stack
   | .schedule scr args, s => some (s.schedule { eid := eid, screen := scr, args := args, modal := false })
   | .push scr args, s => some (s.push { eid := eid, screen := scr, args := args, modal := false })
   | .pushModal scr args, s => some (s.push { eid := eid, screen := scr, args := args, modal := true })
   | .replace scr args, s => s.replace eid scr args
-  | .close, s => s.pop
+  | .close frm, s => s.close frm
   | .discard, s => s.pop
 
 /-- does the operation create an entry (and so use up an identity)? -/
 def Op.creates : Op → Bool
-  | .close | .discard => false
+  | .close _ | .discard => false
   | _ => true
 
 end Spec
 
 /-- Which stack operation the next instruction of a configuration is: the API calls `schedule_screen`,
 `push_screen`, `replace_screen` (scripted actions), the instruction `pushModal` (the body of
-`push_screen_modal`), `closeScreen` (the body of `close_screen`, called directly, through the close
-signal, or for an input answer) and `afterSetup` when the `setup` that just returned reported
+`push_screen_modal`), `closeScreen frm` (the body of `close_screen(frm)`, called directly or for an
+input answer — `frm = none` — or through the close signal of source `frm`) and `afterSetup` when the `setup` that just returned reported
 failure. Every other instruction is none. -/
 def Cfg.stackOp (c : Cfg) : Option Spec.Op :=
   match c.code with
@@ -83,7 +94,7 @@ def Cfg.stackOp (c : Cfg) : Option Spec.Op :=
   | .act (.push scr args) :: _ => some (.push scr args)
   | .act (.replace scr args) :: _ => some (.replace scr args)
   | .pushModal scr args :: _ => some (.pushModal scr args)
-  | .closeScreen _ :: _ => some .close
+  | .closeScreen frm :: _ => some (.close frm)
   | .afterSetup _ :: _ => if c.retSetup then none else some .discard
   | _ => none
 
